@@ -112,7 +112,7 @@ if __name__ == "__main__":          # line-protocol runners around real binaries
 import glob, hashlib, hmac, json, os, threading
 from ..vlib import leanlib, cbuild, judge
 from ..vlib.core import VERIF
-from ..gen import g_hkdf
+from ..gen import g_hkdf, g_key
 
 LEVEL = "proof"
 M64 = (1 << 64) - 1
@@ -320,6 +320,13 @@ class Oracle:
             if ok:
                 return "--bits %s accepted (outside 256..8192)" % bits
             return unchanged()
+        if kind == "mk" and w[6].startswith("F") and not (prec is not None and not force):
+            which = "the kernel entropy read" if w[6][1] == "1" else "the salt read"
+            if ok:
+                return "mungekey reported success although %s failed (a key not derived from kernel entropy)" % which
+            if exists and int(kv.get("size", "0")) != 0:
+                return "mungekey wrote %s bytes to the key file although %s failed" % (kv.get("size"), which)
+            return None
         if prec is not None and not force:
             if ok:
                 r = unchanged()
@@ -457,7 +464,7 @@ def gen_bits(ctx):
     return ops
 
 
-def gen_mk(ctx, kind, n_random, variant=None):
+def gen_mk(ctx, kind, n_random, variant=None, efail=False):
     """(force, umask, pre-existing file, --bits) sweeps: every umask 0000..0777 once, then random combinations"""
     r = ctx.rng
     ops = []
@@ -483,6 +490,15 @@ def gen_mk(ctx, kind, n_random, variant=None):
         bits = r.choice(good) if q < .6 else "-" if q < .7 else r.choice(bad) if q < .85 else r.randrange(256, 8193)
         pre = rnd_pre() if r.random() < .6 else None
         op(1 if r.random() < .45 else 0, r.randrange(512), pre, bits)
+    if efail and kind == "mk":
+        # a machine without an entropy source (the kernel entropy read, or the salt read, reports failure): no key may come out
+        for i in range(24):
+            w = ops[r.randrange(len(ops))].split()
+            if w[5] != "-" and not (256 <= int(w[5]) <= 8192):
+                w[5] = "-"
+            w[6] = "F%d:%s" % (1 + i % 2, w[6])
+            ops.append(" ".join(w))
+            ctx.dist("mk_entropy_failure")
     return ops
 
 
@@ -661,6 +677,9 @@ def run(ctx):
                             for k, v in getattr(ctx, "c20_items", {}).items()}
     if ctx.replay_in:
         return replay(ctx, oracle)
+    # _create_key_secret of mungekey, translated: no entropy / any failing step => no key; success => every step, in order
+    if g_key.generate(ctx):
+        leanlib.check_props(ctx, "C20Key")
     leanlib.check_props(ctx, "C20")
     drv = leanlib.driver(ctx)
     thorough = ctx.tier == "thorough"
@@ -691,7 +710,7 @@ def run(ctx):
     ops = gen_mk(ctx, "mk", 400 if not thorough else 6000, "toy")
     stream(ctx, "mk-toy", ops, ex.get("kt"), drv, oracle, env, "mungekey create_key (toy MAC)")
     ctx.sample(ops[3])
-    ops = gen_mk(ctx, "mk", 150 if not thorough else 3000, "real")
+    ops = gen_mk(ctx, "mk", 150 if not thorough else 3000, "real", efail=True)
     stream(ctx, "mk-real", ops, ex.get("kr"), None, oracle, env, "mungekey create_key (OpenSSL)", model=False)
     # create_subkeys
     ops = gen_sub(ctx, "toy", readbuf)
